@@ -336,6 +336,9 @@ def run_dimfile_case(fmt, orient, header, dtype_name, li, sheets):
         else:
             reader = flodym.ExcelDimensionReader(dimension_files={"Region": path}, dimension_sheets={"Region": sheet} if sheet else None)
         st, dim = attempt(lambda: reader.read_dimension(d))
+        st2, dim2 = attempt(lambda: reader.read_dimension(d))
+        if st == "ok" and (st2 != "ok" or list(dim2.items) != list(dim.items)):
+            st, dim = "raised", f"the second read with the same reader gave {dim2 if st2 != 'ok' else dim2.items} (first: {dim.items})"
     finally:
         shutil.rmtree(tmp, ignore_errors=True)
     if st == "raised":
